@@ -429,6 +429,8 @@ class EchoModel:
             return bytes([0x50, req[1] & 0x7F, 0, 0x32, 1, 0xF4]), req[1] & 0x7F
         if req[0] == 0x22:
             return bytes([0x62]) + req[1:3] + b"\xaa", session
+        if req[0] == 0x11 and len(req) == 2 and not getattr(self, "refuse_reset", False):
+            return bytes([0x51, req[1] & 0x7F]), 1
         return bytes([0x7F, req[0], 0x11]), session
 
 
@@ -466,7 +468,11 @@ def run_lifecycle(item: dict[str, Any], res: Result) -> None:
     scanner_cls = scan_common.G["ProbeScanner"]
     scanner_cls.PLAN = {"initial": item["initial"], "main": item["main"]}
     kw = {"properties": item["properties"], "ping": item["ping"], "tester_present": False}
-    box = scan_common.run_scanner("ProbeScanner", "UDSScannerConfig", kw, EchoModel(), db=True, db_opts=item.get("db_opts"))
+    model = EchoModel()
+    if item.get("ecu_reset"):
+        kw["ecu_reset"] = 1  # the optional initial ECUReset of UDSScanner.setup() (accepted, or refused: then the scanner switches sessions and tries again)
+        model.refuse_reset = item["ecu_reset"] == "refused"  # type: ignore[attr-defined]
+    box = scan_common.run_scanner("ProbeScanner", "UDSScannerConfig", kw, model, db=True, db_opts=item.get("db_opts"))
     res.count("executions")
     res.count("lifecycle_runs")
     if item.get("db_opts"):
@@ -781,6 +787,8 @@ def items(tier: str, seed: int) -> list[Any]:
             [("implicit", False), ("req", 0x1234), ("req", 0x1235), ("implicit", True), ("req", 0x1236)],
         ):
             out.append(({"lifecycle": True, "initial": initial, "properties": props, "ping": ping, "main": main, "steps": []}, 0, cap))
+            for er in ("accepted", "refused"):
+                out.append(({"lifecycle": True, "initial": initial, "properties": props, "ping": ping, "main": main, "steps": [], "ecu_reset": er}, 0, cap))
             if initial and ping:
                 # slow disk (rows pile up in the writer queue during main) and a transient error in the final run_meta update / in the
                 # writes of teardown: entry_point() must still leave a database that holds every row
